@@ -449,7 +449,7 @@ impl Prop for Totality {
     }
 
     fn rule(&self) -> String {
-        "one run = one seeded case from the full configuration product (generated game incl. integer/tied payoffs and contract-edge trees x method x RegretParams::new tuples over {+-inf,0,+-0.5,+-1.5,2,+-1e3} / presets / None x T incl. 0 x thresholds {-1,0,NaN,+inf,..} x num_threads in {0,1,2..16,4096,4097,65535,usize::MAX/3,+1,usize::MAX} x core-count override {unknown,1,2,16,64} x injected pool-build failure x scheduler policy x stub coins), executed as one simulated execution; after an injected failure the same call is retried with the fault cleared. Non-trivial: a fault actually fired (pool build failure, too many threads, core-count override) or >= 2 simulated workers interleaved with >= 1 preemption; distinct = distinct (configuration, scheduler-decision sequence) hashes".into()
+        "one run = one seeded case from the full configuration product (generated game incl. integer/tied payoffs, payoff magnitudes 1e-300..1e250, chance weights scaled by 1e-300..8e307, lottery branches and contract-edge trees x method x RegretParams::new tuples over {+-inf,0,+-0.5,+-1.5,2,+-1e3} and log-uniform exponents in +-[0.1,1000] / presets / None x T incl. 0 and u64::MAX (with threshold +inf) x thresholds {-1,0,NaN,+inf,..} x num_threads in {0,1,2..16,4096,4097,65535,usize::MAX/3,+1,usize::MAX} x core-count override {unknown,1,2,16,64} x injected pool-build failure x scheduler policy x stub coins), executed as one simulated execution; after an injected failure the same call is retried with the fault cleared. Non-trivial: a fault actually fired (pool build failure, too many threads, core-count override) or >= 2 simulated workers interleaved with >= 1 preemption; distinct = distinct (configuration, scheduler-decision sequence) hashes".into()
     }
 
     fn assumptions(&self) -> Vec<String> {
